@@ -3,7 +3,7 @@ from .. import core, fm, km, mc, ref
 from ..core import Failure
 from .c01 import minimise, NAMINGS, scope_iter
 
-FORMS = ['obj', 'text', 'str']
+FORMS = ['obj', 'text', 'str', 'shared']
 
 
 def routes(f, acc=None, under_temporal=False):
@@ -137,7 +137,7 @@ def enum_shard(st, shard, nshards, payload):
     idx = -1
     for (n, scope_name, stride) in payload['scopes']:
         forms = formula_scope(scope_name)
-        objs = [fm.to_lib(f, L) for f in forms]
+        objs = [fm.to_lib(f, L, share={} if fi_ % 2 else None) for fi_, f in enumerate(forms)]
         rts = [sorted(routes(f)) for f in forms]
         nts = [is_nontrivial(f) for f in forms]
         for j, K in enumerate(scope_iter(n, stride, nshards)):
@@ -174,7 +174,7 @@ def enum_shard(st, shard, nshards, payload):
                 for r in rts[fi]:
                     st.bump('route: ' + r)
                 if out != ('set', exp):
-                    inp = {'K': K, 'f': f, 'naming': naming, 'how': how, 'form': 'obj'}
+                    inp = {'K': K, 'f': f, 'naming': naming, 'how': how, 'form': 'shared' if fi % 2 else 'obj'}
                     fresh = check_ctls(inp)
                     if fresh is None:
                         st.add_extra('mismatch_only_with_reused_structure')
